@@ -29,7 +29,7 @@ func c08Ladders(tier string) []gen.Ladder {
 	}
 	return []gen.Ladder{
 		{Alpha: gen.SigmaFull(), Depth: 2, Funcs: gen.FuncSuffixes(), FuncDepth: 2},
-		{Alpha: gen.SigmaMid(), Depth: 3, MinPrefix: 2},
+		{Alpha: gen.SigmaMid(), Depth: 3, MinPrefix: 2, CoreDocs: true},
 	}
 }
 
@@ -227,9 +227,13 @@ func (j *c08Job) RunUnit(i int, c *run.Ctx) {
 	}
 	get := func(p *gen.Path) impl.Func { f, _ := j.parse(p); return f }
 	m := modeFloat
+	nDocs := j.ds.n()
+	if u.L.CoreDocs && j.ds.nCore > 0 {
+		nDocs = j.ds.nCore
+	}
 	for ri := range rels {
 		r := &rels[ri]
-		for di := 0; di < j.ds.n(); di++ {
+		for di := 0; di < nDocs; di++ {
 			c.Tick()
 			doc := j.ds.docs[m][di]
 			ok, detail, nontrivial, calls := c08Eval(r, doc, get)
